@@ -1,6 +1,6 @@
 CONSTANTS
   MaxA = 4
-  MaxM = 4
+  MaxM = 3
   WA = 2
   WM = 2
   MaxCount = 5
